@@ -7,6 +7,9 @@ import itertools
 from common import lean_batch
 
 VARS = ['a', 'b', 'c', 'd']
+# variable names that look like constants / operators / keywords-but-not-quite (all valid Python identifiers)
+ODD_VARSETS = [['true', 'false', 'a', 'b'], ['TRUE', 'False_', 'T', 'F'], ['Not', 'And', 'Or', 'x'], ['_', '__', 'a1', 'A'],
+               ['lambda_', 'ordering', 'root', 'self'], ['x' * 40, 'y', 'Z' * 17, 'k9']]
 
 # ---------------------------------------------------------------------------------------------- expressions
 # BExp trees: ('c', 0/1, text) | ('v', name) | ('not', e, style) | ('band', x, y) | ('bor', x, y)
